@@ -55,21 +55,36 @@ func (c *Ctx) buildEvalModel() *evalModel {
 			continue
 		}
 		em.funcs = append(em.funcs, f)
-		for _, b := range f.Blocks {
-			ifi, ok := b.Instrs[len(b.Instrs)-1].(*ssa.If)
-			if !ok {
+		// which token types can reach each block (forward dataflow: the spelling of the dispatch - switch,
+		// if-chain, inverted test with early return - does not matter); the handler of type K is the
+		// region of blocks reached only for K
+		names := c.constNames(pkgParsers, "")
+		sets := c.typeSets(f, tokParam, pkgParsers, "ExpressionToken", names)
+		for k := range names {
+			if k < 0 || k >= 63 {
 				continue
 			}
-			recv, k, op, ok := c.typeTestConst(ifi.Cond, pkgParsers, "ExpressionToken")
-			if !ok || op != token.EQL || recv != ssa.Value(tokParam) {
+			region := map[*ssa.BasicBlock]bool{}
+			var entry *ssa.BasicBlock
+			for _, b := range f.Blocks {
+				if sets[b]&^(1<<63) == 1<<uint(k) {
+					region[b] = true
+				}
+			}
+			for _, b := range f.Blocks {
+				if !region[b] {
+					continue
+				}
+				for _, p := range b.Preds {
+					if !region[p] && (entry == nil || b.Index < entry.Index) {
+						entry = b
+					}
+				}
+			}
+			if entry == nil {
 				continue
 			}
-			body := b.Succs[0]
-			// merge with an existing handler sharing the same body (case A, B:)
-			h := &handler{k: k, fn: f, body: body, region: map[*ssa.BasicBlock]bool{}}
-			for _, d := range dominatedBlocks(body) {
-				h.region[d] = true
-			}
+			h := &handler{k: k, fn: f, body: entry, region: region}
 			c.fillHandler(h)
 			em.handlers[k] = append(em.handlers[k], h)
 		}
